@@ -1,7 +1,7 @@
 ---- MODULE MC_rbf ----
 \* generated from universe "rbf"
 EXTENDS Mempool
-U_TxIns == << {<<0, 0>>}, {<<1, 0>>}, {<<0, 0>>}, {<<0, 0>>}, {<<0, 0>>, <<0, 1>>}, {<<-100, 0>>} >>
+U_TxIns == << {<<0, 0>>}, {<<1, 1>>}, {<<0, 0>>}, {<<0, 0>>}, {<<0, 0>>, <<0, 1>>}, {<<-100, 0>>} >>
 U_TxNOut == << 2, 1, 1, 1, 1, 1 >>
 U_TxFee == << 2000, 1000, 3100, 3099, 4000, 1000 >>
 U_TxVSize == << 100, 100, 100, 100, 200, 100 >>
